@@ -555,6 +555,27 @@ pub fn long_parents(rng: &mut Rng, layout: &Layout) -> DocSpec {
     b.finish(catalog, &layout, rng)
 }
 
+/// Hostile: two ICC profile streams that name each other as /Alternate, both used by one resources
+/// object (an indirect one, so that it can be loaded typed on its own), beside a healthy page.
+pub fn icc_cycle(rng: &mut Rng, layout: &Layout) -> DocSpec {
+    let mut b = Builder::new();
+    let catalog = b.reserve();
+    let pages = b.reserve();
+    let a = b.reserve();
+    let c = b.reserve();
+    for (me, other) in [(a, c), (c, a)] {
+        b.put_stream(me, vec![("N".into(), Val::Int(1)), ("Alternate".into(), Val::Arr(vec![Val::name("ICCBased"), Val::r(other)]))], vec![0u8; 8]);
+    }
+    let resources = b.add(Val::dict(vec![("ColorSpace", Val::dict(vec![("CS0", Val::Arr(vec![Val::name("ICCBased"), Val::r(a)])), ("CS1", Val::Arr(vec![Val::name("ICCBased"), Val::r(c)]))]))]));
+    let p1 = b.add(Val::dict(vec![("Type", Val::name("Page")), ("Parent", Val::r(pages)), ("MediaBox", rect(0, 0, 100, 100)), ("Resources", Val::r(resources))]));
+    let p2 = b.add(Val::dict(vec![("Type", Val::name("Page")), ("Parent", Val::r(pages)), ("MediaBox", rect(0, 0, 100, 100)), ("Resources", Val::dict(vec![]))]));
+    b.put(pages, Val::dict(vec![("Type", Val::name("Pages")), ("Kids", Val::Arr(vec![Val::r(p1), Val::r(p2)])), ("Count", Val::Int(2))]));
+    b.put(catalog, Val::dict(vec![("Type", Val::name("Catalog")), ("Pages", Val::r(pages))]));
+    let mut layout = layout.clone();
+    layout.keep_direct.push(catalog);
+    b.finish(catalog, &layout, rng)
+}
+
 /// A page tree as deep as `File::get_page` accepts (the root plus up to 15 nested /Pages nodes),
 /// with a leaf at the bottom and one at every third level.
 pub fn deep_tree(rng: &mut Rng, layout: &Layout) -> DocSpec {
@@ -609,6 +630,7 @@ pub enum Family {
     SharedHeader,
     JbigCycle,
     LongParents,
+    IccCycle,
 }
 impl Family {
     pub fn name(&self) -> &'static str {
@@ -622,6 +644,7 @@ impl Family {
             Family::SharedHeader => "shared_header",
             Family::JbigCycle => "jbig_cycle",
             Family::LongParents => "long_parents",
+            Family::IccCycle => "icc_cycle",
         }
     }
 }
@@ -637,9 +660,18 @@ pub fn generate(family: &Family, rng: &mut Rng) -> DocSpec {
         Family::CyclicParents => cyclic_parents(rng, &layout),
         Family::DeepTree => deep_tree(rng, &layout),
         Family::Dangling => dangling(rng, &layout),
-        Family::SharedHeader => shared_header(rng, &layout),
+        Family::SharedHeader => {
+            // every other one encrypted (the stream data is then bound to the object number twice:
+            // by the cache key and by the key it is decrypted with)
+            let mut layout = layout;
+            if rng.coin() {
+                layout.encrypt = Some((3, 16));
+            }
+            shared_header(rng, &layout)
+        }
         Family::JbigCycle => jbig_cycle(rng, &layout),
         Family::LongParents => long_parents(rng, &layout),
+        Family::IccCycle => icc_cycle(rng, &layout),
         Family::RichEncrypted => {
             let o = RichOpts::random(rng);
             let mut layout = layout;
